@@ -184,7 +184,11 @@ Definition step (st0 : tstate) (r : rec) : tstate * list row :=
         (mkts true true (t_live st) (t_dead st) (t_over st) u tm (t_lastx st) (t_legacy st), [])
       else
         let n := S (N.to_nat (sc - u)) in
-        let arr := lost_loop n sc 0 (arr_of st) in
+        (* fstack_account_time: "for (i = task->stack_count - 1; i >= task->user_stack_count; i--)": the open
+           frames above the user frames; legacy: the loop started at stack_count, i.e. with the slot ABOVE the
+           innermost open frame, and billed that slot's 1 ns to the innermost open call *)
+        let arr := if t_legacy st then lost_loop n sc 0 (arr_of st)
+                   else lost_loop (N.to_nat (sc - u)) (sc - 1) 0 (arr_of st) in
         let rows := lost_rows (t_legacy st) n sc arr in
         let st' := with_stack st (u - 1) arr in
         (mkts true true (t_live st') (t_dead st') (t_over st') u tm (t_lastx st) (t_legacy st), rows)
@@ -387,8 +391,10 @@ Definition fmt_time := fmt_time_with limits.
 Definition fmt_time_legacy := fmt_time_with limits_legacy.
 
 (* ------------------------------------------------------------------ ground truth and checker *)
-(* a completed call: address, entry time, exit time, callees *)
-Inductive call := Call (a t0 t1 : N) (kids : list call).
+(* a completed call: address of its ENTRY record (0: the entry was not seen - a frame inherited at fork() or
+   data starting at depth > 0), address of its EXIT record, entry time, exit time, callees *)
+Inductive call := CallX (e a t0 t1 : N) (kids : list call).
+Definition Call (a : N) := CallX a a.
 (* calls still open at the end of a task's data: the chain of open frames, outermost first, each with
    the completed calls made before the next open frame was entered *)
 Record oframe := mkof { o_addr : N; o_t0 : N; o_kids : list call }.
@@ -396,7 +402,7 @@ Record ttrace := mktt { tt_done : list call; tt_open : list oframe }.
 
 Fixpoint flat (d : N) (c : call) : list rec :=
   match c with
-  | Call a t0 t1 kids => mkrec ENTRY d a t0 :: concat (map (flat (d + 1)) kids) ++ [mkrec EXIT d a t1]
+  | CallX e a t0 t1 kids => mkrec ENTRY d e t0 :: concat (map (flat (d + 1)) kids) ++ [mkrec EXIT d a t1]
   end.
 Fixpoint flat_open (d : N) (os : list oframe) : list rec :=
   match os with
@@ -408,15 +414,16 @@ Definition trace_recs (tt : ttrace) : list rec :=
 Definition last_time (tt : ttrace) : N := last (map r_time (trace_recs tt)) 0.
 
 (* what the property says about one invocation, by recursion on the call tree, in plain arithmetic:
-   total = t1 - t0, self = total - (durations of the direct callees), recursive = the same address is
-   open further out *)
-Definition dur (c : call) : N := match c with Call _ t0 t1 _ => t1 - t0 end.
+   total = t1 - t0, self = total - (durations of the direct callees), recursive = the same (known) address is
+   open further out; the row is named by the EXIT record *)
+Definition recursive (e : N) (anc : list N) : bool := negb (e =? 0) && existsb (N.eqb e) anc.
+Definition dur (c : call) : N := match c with CallX _ _ t0 t1 _ => t1 - t0 end.
 Definition sumdur (l : list call) : N := fold_right (fun c s => dur c + s) 0 l.
 Fixpoint spec_rows (anc : list N) (c : call) : list row :=
   match c with
-  | Call a t0 t1 kids =>
-      concat (map (spec_rows (a :: anc)) kids)
-      ++ [mkrow a (t1 - t0) ((t1 - t0) - sumdur kids) (existsb (N.eqb a) anc)]
+  | CallX e a t0 t1 kids =>
+      concat (map (spec_rows (e :: anc)) kids)
+      ++ [mkrow a (t1 - t0) ((t1 - t0) - sumdur kids) (recursive e anc)]
   end.
 (* calls open at the end of the data last until the task's last record *)
 Definition odur (last : N) (o : oframe) : N := last - o_t0 o.
@@ -428,7 +435,7 @@ Fixpoint spec_open (last : N) (anc : list N) (os : list oframe) : list row :=
       ++ spec_open last (o_addr o :: anc) t
       ++ [mkrow (o_addr o) (odur last o)
                 (odur last o - sumdur (o_kids o) - match t with [] => 0 | n :: _ => odur last n end)
-                (existsb (N.eqb (o_addr o)) anc)]
+                (recursive (o_addr o) anc)]
   end.
 Definition spec_task (tt : ttrace) : list row :=
   concat (map (spec_rows []) (tt_done tt)) ++ spec_open (last_time tt) [] (tt_open tt).
